@@ -559,6 +559,7 @@ def run(ctx):
             extra_oracles2.gm_long_sample(ctx)
             from .. import extra_oracles3
             extra_oracles3.default_candidates_shared(ctx)
+            extra_oracles3.gm_fit_container(ctx)
             extra_oracles3.fit_row_index(ctx, ('default', 'selection-sample-size'), quick=(ctx.tier == 'quick'))
         except Exception as ex:       # the oracle itself must never hide the result of the check proper
             ctx.obligation('oracle:extra:raised', False, 'correspondence', repr(ex))
